@@ -348,8 +348,12 @@ class Site:
     def request(self, data: bytes, tls: typing.Union[bool, str] = False,
                 addr: typing.Tuple[str, int] = CLIENT_ADDR, timeout: float = 30.0,
                 server_sock_wrapper: typing.Optional[typing.Callable] = None,
-                half_close: bool = True) -> Response:
+                half_close: bool = True, segments: typing.Optional[typing.Sequence[int]] = None,
+                segment_gap: float = 0.008) -> Response:
         """Send `data` as one connection and collect everything the server writes.
+
+        segments: byte offsets at which the client pauses (segment_gap seconds): the request reaches
+        the server in several pieces, as TCP is free to deliver it.
 
         tls: False (plaintext), True/'mock' (the server sees an ssl.SSLSocket instance
         on a cleartext socketpair) or 'real' (genuine TLS handshake; the Site must have
@@ -376,7 +380,16 @@ class Site:
                         resp.tls_error = "%s: %s" % (type(e).__name__, e)
                         return
                 try:
-                    c.sendall(data)
+                    if segments:
+                        cuts = sorted({k for k in segments if 0 < k < len(data)})
+                        last = 0
+                        for k in cuts + [len(data)]:
+                            c.sendall(data[last:k])
+                            last = k
+                            if k < len(data):
+                                time.sleep(segment_gap)
+                    else:
+                        c.sendall(data)
                     if half_close and tls != "real":
                         c.shutdown(socket.SHUT_WR)
                 except OSError:
